@@ -314,8 +314,8 @@ impl Monitor for C05 {
         N_DIRECTED
             + match t {
                 Tier::Tiny => 6,
-                Tier::Quick => 20_000,
-                Tier::Thorough => 300_000,
+                Tier::Quick => 200000,
+                Tier::Thorough => 2000000,
             }
     }
     fn rule(&self) -> &'static str {
